@@ -1,8 +1,8 @@
 CONSTANTS HW = 7
           Margins = {1, 3, 4}
-          Anchors = {1, 2}
+          Anchors = {1, 2, 3}
           NMax = 8
-          MCMod = 10
+          MCMod = 15
           GenMod = 1
           TPad = 2
 INIT Init
